@@ -1,5 +1,10 @@
 """C44 — Banana: real twisted.spread.banana.Banana (encoder + streaming decoder) vs the Lean model, and
 the property oracle (round trip for every segmentation, refusals) evaluated on the real code."""
+import array
+import collections
+import decimal
+import enum
+import fractions
 import importlib
 import struct
 import zlib
@@ -13,8 +18,17 @@ from twisted.spread import banana
 HEADLINE = "TwistedProps.C44.decode_encode"
 RULE = ("rt: random nested structures (depth <= 6) of boundary/random integers, float bit patterns (NaN payloads, inf, -0.0), "
         "byte strings (empty, vocabulary words, high-bit bytes, lengths at 127/128, 16383/16384, SIZE_LIMIT+-1), lists/tuples, "
-        "unsupported objects; dialect pb/none; prefixLimit 64 and small values; the real encoding cut into random deliveries "
-        "(whole, byte-wise, random cuts, with and without empty deliveries). dec: mutated/recipe streams (over-long prefix, "
+        "unsupported objects; ~7% of all nodes are instances of SUBCLASSES of the supported types (list / tuple / bytes / int / "
+        "float subclasses, namedtuple, bool, IntEnum / IntFlag members), judged exactly like the plain value; unsupported values "
+        "are an arbitrary object or one of 28 named ones (str incl. empty / non-ASCII / a vocabulary word, None, bytearray, "
+        "memoryview, range, dict, set, frozenset, deque, array, complex, Decimal, Fraction, iterators, types, functions …), at the "
+        "top and inside structures; ~7% of the round trips and 5% of the sends are spines nested 5-12 deep with siblings at every "
+        "level; corpus: a list of exactly SIZE_LIMIT elements (enc only; thorough: SIZE_LIMIT / SIZE_LIMIT-1 elements, list and "
+        "list subclass); dialect pb/none; prefixLimit 64 and small values, in 30% of the rt / enc / dec / sess cases set through the "
+        "MODULE-WIDE banana.setPrefixLimit before the connection is made instead of the instance method; the real encoding cut "
+        "into random deliveries "
+        "(whole, byte-wise, random cuts, with and without empty deliveries). dec: mutated/recipe streams (over-long prefix — random "
+        "digits, a small number padded with zero digits beyond the limit, all zeros, zero low-order digits —, "
         "oversized LIST/STRING length, unknown type byte, VOCAB, truncated items). sess (about a fifth of the cases): a HISTORY on "
         "two connected Bananas A and B (same dialect / prefixLimit), each both sending and receiving: sendEncoded of legal values, of "
         "values refused at the top level, and of values refused PART-WAY through a structure (out-of-range int, oversized bytes / "
@@ -22,13 +36,20 @@ RULE = ("rt: random nested structures (depth <= 6) of boundary/random integers, 
         "0 / few / all pending bytes in either direction, final flush; optionally B answers every expression by sendEncoded from "
         "inside expressionReceived (re-entrant from dataReceived). mod: a history on the module-level helpers banana.encode / "
         "banana.decode (one shared instance, module re-imported per case): encode of legal / refused values, decode of raw bytes "
-        "(truncated, refused inside open lists, several expressions, junk), decode(encode(v)). distinct = (op, dialect, prefixLimit "
+        "(truncated, refused inside open lists, several expressions, complete expressions FOLLOWED by a truncated one / open lists / "
+        "a refused item, junk), decode(encode(v)). distinct = (op, dialect, prefixLimit "
         "class, set of node kinds, depth, delivery shape, outcome); for sess/mod (dialect, limit class, echo, pattern of step kinds "
         "v/n/t = accepted / refused nested / refused at top, delivery kinds, outcomes)")
 ASSUMES = [
     "prefixLimit >= 3 for the round-trip half (SIZE_LIMIT needs 3 base-128 digits; the default is 64); smaller limits are tied to the model but carry no oracle expectation",
     "struct.pack('!d')/unpack('!d') is a bijection between Python floats and 8-byte strings (bit patterns incl. NaN payloads are checked on every run)",
     "dialect already negotiated (currentDialect is b'pb' or b'none'); negotiation is not part of the property",
+    "the model's Expr is the VALUE: _encode dispatches with isinstance, so an instance of a subclass of list / tuple / int / float / "
+    "bytes is modelled (and judged by the oracle) as the plain value — plain subclasses without overridden behaviour; every value "
+    "of any other type is the model's `.other`",
+    "the model's Cfg.lim is the prefix limit in force on the connection, whichever way it was set (module-wide setPrefixLimit "
+    "before connectionMade, or Banana.setPrefixLimit afterwards); the harness restores the module-wide default 64 after each case",
+    "a list of exactly SIZE_LIMIT elements is only encoded (its decoding by dataReceived is quadratic: 655360 buffer copies of ~1 MB)",
     "feeding stops at the first exception escaping dataReceived (the transport drops the connection)",
     "histories (sess): both Bananas of a pair use the same dialect and prefix limit; B's echoing expressionReceived swallows a "
     "BananaError of its own sendEncoded (never happens: everything the decoder delivers is within the limits — decoded_within_limits, history_echo)",
@@ -58,6 +79,9 @@ MANIFEST = {
             "of its own accepted values and of everything it received, no echo is ever refused (history_echo). Whatever the stream, "
             "the decoder never delivers a value outside the limits (decoded_within_limits). "
             "banana.decode(banana.encode(v)) == v after any history of the module-level helpers (mod_roundtrip_after_history). "
+            "Boundary classes named after the mutation audit: the size limit is inclusive (encode_accepts_full_list / "
+            "encode_refuses_overfull_list), no bound on the nesting depth (decode_encode_nested), a prefix longer than the limit "
+            "is refused whatever its digits are, zero padding included (oversized_of_long_prefix). "
             "Model tied to banana.py by differential runs of encode / decode / round-trip / sess / mod histories.",
     "note": "trusts Lean kernel, the hand-written model of banana.py (differentially tied), struct's IEEE-754 packing",
     "technique": "Lean 4 proof (stream/batch equivalence of the decoder loop + structural induction) + differential tie + "
@@ -76,8 +100,65 @@ class Unsupported:
     """an object _encode has no branch for"""
 
 
+# values of types Banana does not send (sendEncoded: "@raise BananaError: If the given object is not an instance of one of
+# the types supported by Banana"): text, None, mutable / lazy / unordered containers, other numbers, arbitrary objects
+OTHERS = {
+    "str": lambda: "abc", "str-empty": lambda: "", "str-vocab": lambda: "list", "str-nonascii": lambda: "caf\u00e9 \U0001f34c",
+    "str-digit": lambda: "7", "None": lambda: None, "bytearray": lambda: bytearray(b"ab"), "bytearray-empty": lambda: bytearray(),
+    "memoryview": lambda: memoryview(b"ab"), "range": lambda: range(3), "range-empty": lambda: range(0),
+    "dict": lambda: {1: 2}, "dict-empty": lambda: {}, "set": lambda: {1, 2}, "frozenset": lambda: frozenset([1]),
+    "complex": lambda: 1j, "Decimal": lambda: decimal.Decimal("1.5"), "Fraction": lambda: fractions.Fraction(3, 1),
+    "deque": lambda: collections.deque([1, 2]), "array": lambda: array.array("b", [1, 2]),
+    "iterator": lambda: iter([1, 2]), "generator": lambda: (x for x in (1, 2)), "type": lambda: int,
+    "function": lambda: len, "Ellipsis": lambda: Ellipsis, "NotImplemented": lambda: NotImplemented,
+    "object": lambda: object(), "exception": lambda: ValueError("x"),
+}
+
+
+class ListSub(list):
+    pass
+
+
+class TupleSub(tuple):
+    pass
+
+
+class BytesSub(bytes):
+    pass
+
+
+class IntSub(int):
+    pass
+
+
+class FloatSub(float):
+    pass
+
+
+def _subclassed(how, base, v):
+    """an instance of a SUBCLASS of the supported type with the value v (a list subclass is a list, a bool is an int …)"""
+    if base in "LR":
+        return ListSub(v)
+    if base == "T":
+        if how == "nt":
+            return collections.namedtuple("NT", ["f%d" % k for k in range(len(v))])(*v)
+        return TupleSub(v)
+    if base in "bZ":
+        return BytesSub(v)
+    if base == "f":
+        return FloatSub(v)
+    if how == "bool" and v in (0, 1):
+        return bool(v)
+    if how == "enum":
+        return enum.IntEnum("E", {"member": v}).member
+    if how == "flag" and v >= 0:
+        return enum.IntFlag("F", {"member": v}).member if v else IntSub(v)
+    return IntSub(v)
+
+
 # ----------------------------------------------------------------------------------------
-# expressions: JSON form  ["i",n] ["f",hex16] ["b",hex] ["Z",n,hexbyte] ["L",[..]] ["T",[..]] ["R",n,e] ["o"]
+# expressions: JSON form  ["i",n] ["f",hex16] ["b",hex] ["Z",n,hexbyte] ["L",[..]] ["T",[..]] ["R",n,e] ["o"] ["o",name]
+#   ["S",how,e]  the value of e (e one of i f b Z L T R) as an instance of a subclass (how: sub / nt / bool / enum / flag)
 
 def to_py(e):
     k = e[0]
@@ -96,7 +177,9 @@ def to_py(e):
     if k == "R":
         return [to_py(e[2])] * e[1]
     if k == "o":
-        return Unsupported()
+        return OTHERS[e[1]]() if len(e) > 1 else Unsupported()
+    if k == "S":
+        return _subclassed(e[1], e[2][0], to_py(e[2]))
     raise ValueError(e)
 
 
@@ -114,7 +197,23 @@ def wire(e):
         return ",".join([k + str(len(e[1]))] + [wire(x) for x in e[1]])
     if k == "R":
         return "R%d,%s" % (e[1], wire(e[2]))
+    if k == "S":                 # the model's Expr is the value: _encode dispatches by isinstance, a subclass instance is its base
+        return wire(e[2])
     return "o"
+
+
+def describe(e):
+    """wire() for messages: also says which values are subclass instances and which unsupported value was used"""
+    k = e[0]
+    if k == "S":
+        return "S:%s(%s)" % (e[1], describe(e[2]))
+    if k == "o":
+        return "o" if len(e) == 1 else "o:" + e[1]
+    if k in "LT":
+        return ",".join([k + str(len(e[1]))] + [describe(x) for x in e[1]])
+    if k == "R":
+        return "R%d,%s" % (e[1], describe(e[2]))
+    return wire(e)
 
 
 def show_bytes(b):
@@ -150,6 +249,8 @@ def expected_text(e):
         return ",".join(["L%d" % len(e[1])] + [expected_text(x) for x in e[1]])
     if k == "R":
         return ",".join(["L%d" % e[1]] + [expected_text(e[2])] * e[1])
+    if k == "S":                 # an equal structure: the plain list / int / float / bytes with the same value
+        return expected_text(e[2])
     return "o"
 
 
@@ -167,6 +268,8 @@ def in_limits(e, lim):
         return len(e[1]) <= SIZE_LIMIT and all(in_limits(x, lim) for x in e[1])
     if k == "R":
         return e[1] <= SIZE_LIMIT and (e[1] == 0 or in_limits(e[2], lim))
+    if k == "S":
+        return in_limits(e[2], lim)
     return False
 
 
@@ -187,6 +290,11 @@ def kinds(e, acc=None, depth=0):
     elif k == "R":
         acc.add("L")
         d = max(d, kinds(e[2], acc, depth + 1)[1])
+    elif k == "S":
+        acc.add("sub")
+        d = max(d, kinds(e[2], acc, depth)[1])
+    elif k == "o":
+        acc.add("o" if len(e) == 1 else "o-" + e[1].split("-")[0][:5])
     else:
         acc.add(k)
     return acc, d
@@ -195,17 +303,27 @@ def kinds(e, acc=None, depth=0):
 # ----------------------------------------------------------------------------------------
 # the real code
 
-def _proto(d, lim):
+def _proto(d, lim, g=0):
+    """g=0: the limit is set on the instance after the connection is made (Banana.setPrefixLimit);
+    g=1: the limit is the module-wide one (banana.setPrefixLimit, "for all Banana connections established after this
+    call") in force when the connection is made — the instance method is never called by the harness"""
     p = banana.Banana()
     t = StringTransport()
-    p.makeConnection(t)           # connectionMade: prefix limit, currentDialect = None (client: sends nothing)
-    p.setPrefixLimit(lim)
+    if g:
+        banana.setPrefixLimit(lim)
+        try:
+            p.makeConnection(t)
+        finally:
+            banana.setPrefixLimit(64)     # connections made later (other cases) get the default again
+    else:
+        p.makeConnection(t)       # connectionMade: prefix limit, currentDialect = None (client: sends nothing)
+        p.setPrefixLimit(lim)
     p._selectDialect(d.encode())
     return p, t
 
 
-def _encode(d, lim, value):
-    p, t = _proto(d, lim)
+def _encode(d, lim, value, g=0):
+    p, t = _proto(d, lim, g)
     try:
         p.sendEncoded(value)
     except banana.BananaError:
@@ -219,8 +337,8 @@ def DECODE_ERRORS():
     return (banana.BananaError, NotImplementedError, KeyError, AssertionError)
 
 
-def _decode(d, lim, chunks):
-    p, _ = _proto(d, lim)
+def _decode(d, lim, chunks, g=0):
+    p, _ = _proto(d, lim, g)
     got = []
     p.expressionReceived = got.append
     err = "-"
@@ -246,9 +364,9 @@ def cut(bs, sizes):
 def _run_sess(c):
     """two connected Bananas A and B (same dialect / prefix limit), each sending and receiving; every byte a side writes
     stays pending until a `d` step (or the final flush) hands it to the peer's dataReceived"""
-    d, lim, echo = c["d"], c["lim"], c["echo"]
-    A, tA = _proto(d, lim)
-    B, tB = _proto(d, lim)
+    d, lim, echo, g = c["d"], c["lim"], c["echo"], c.get("g", 0)
+    A, tA = _proto(d, lim, g)
+    B, tB = _proto(d, lim, g)
     proto = {"A": A, "B": B}
     tr = {"A": tA, "B": tB}
     got = {"A": [], "B": []}
@@ -327,18 +445,18 @@ def run_impl(c):
         return _run_sess(c)
     if c["op"] == "mod":
         return _run_mod(c)
-    d, lim = c["d"], c["lim"]
+    d, lim, g = c["d"], c["lim"], c.get("g", 0)
     if c["op"] == "enc":
-        b = _encode(d, lim, to_py(c["e"]))
+        b = _encode(d, lim, to_py(c["e"]), g)
         return "!raised BananaError" if b is None else b if isinstance(b, str) else show_bytes(b)
     if c["op"] == "dec":
-        return _decode(d, lim, [bytes.fromhex(x) for x in c["chunks"]])
-    b = _encode(d, lim, to_py(c["e"]))
+        return _decode(d, lim, [bytes.fromhex(x) for x in c["chunks"]], g)
+    b = _encode(d, lim, to_py(c["e"]), g)
     if b is None:
         return "enc=!raised BananaError"
     if isinstance(b, str):
         return "enc=" + b
-    return "enc=" + show_bytes(b) + "|" + _decode(d, lim, cut(b, c["sizes"]))
+    return "enc=" + show_bytes(b) + "|" + _decode(d, lim, cut(b, c["sizes"]), g)
 
 
 def model_line(c):
@@ -400,9 +518,9 @@ def _send_verdict(e, lim, token):
     if "partial-write" in token:
         return {"key": "partial-write", "detail": "a refused value left bytes on the transport"}
     if not ok and not token.startswith("!BananaError"):
-        return {"key": "encode-accepts-out-of-limit", "detail": f"{wire(e)[:200]} lim={lim}: {token[:200]}"}
+        return {"key": "encode-accepts-out-of-limit", "detail": f"{describe(e)[:200]} lim={lim}: {token[:200]}"}
     if ok and token.startswith("!"):
-        return {"key": "encode-refuses-in-limit", "detail": f"{wire(e)[:200]} lim={lim}: {token[:100]}"}
+        return {"key": "encode-refuses-in-limit", "detail": f"{describe(e)[:200]} lim={lim}: {token[:100]}"}
     return None
 
 
@@ -431,7 +549,7 @@ def _oracle_sess(c, out):
     for name, txt in (("B", b_txt), ("A", a_txt)):
         body, err[name] = txt[len("B<exprs="):].rsplit(",err=", 1)
         got[name] = body.split("/") if body else []
-    hist = ";".join((f"s{st[1]}:{wire(st[2])[:60]}" if st[0] == "s" else f"d{st[1]}:{st[2]}") for st in c["steps"])[:500]
+    hist = ";".join((f"s{st[1]}:{describe(st[2])[:60]}" if st[0] == "s" else f"d{st[1]}:{st[2]}") for st in c["steps"])[:500]
     for name, peer in (("B", "A"), ("A", "B")):
         if err[name] != "-":
             key = "empty-delivery-assert" if err[name] == "AssertionError" else "roundtrip-after-history"
@@ -452,7 +570,7 @@ def _oracle_mod(c, out):
     toks = out.split(";")
     if len(toks) != len(c["steps"]):
         return {"key": "unexpected-exception", "detail": out[:300]}
-    hist = ";".join(f"{st[0]}:{st[1][:40] if st[0] == 'x' else wire(st[1])[:60]}" for st in c["steps"])[:500]
+    hist = ";".join(f"{st[0]}:{st[1][:40] if st[0] == 'x' else describe(st[1])[:60]}" for st in c["steps"])[:500]
     for st, tok in zip(c["steps"], toks):
         if st[0] == "x":
             continue
@@ -462,7 +580,7 @@ def _oracle_mod(c, out):
                 return v
             continue
         if tok != "v=" + expected_text(st[1]):
-            return {"key": "roundtrip-after-history", "detail": f"banana.decode(banana.encode({wire(st[1])[:200]})) gave {tok[:300]} "
+            return {"key": "roundtrip-after-history", "detail": f"banana.decode(banana.encode({describe(st[1])[:200]})) gave {tok[:300]} "
                     f"in the history [{hist}]"}
     return None
 
@@ -481,9 +599,9 @@ def oracle(c, out):
         if "partial-write" in out:
             return {"key": "partial-write", "detail": "a refused value left bytes on the transport"}
         if not ok and not refused:
-            return {"key": "encode-accepts-out-of-limit", "detail": f"{wire(c['e'])[:200]} lim={lim}: {out[:200]}"}
+            return {"key": "encode-accepts-out-of-limit", "detail": f"{describe(c['e'])[:200]} lim={lim}{' (module-wide limit)' if c.get('g') else ''}: {out[:200]}"}
         if ok and refused:
-            return {"key": "encode-refuses-in-limit", "detail": f"{wire(c['e'])[:200]} lim={lim}"}
+            return {"key": "encode-refuses-in-limit", "detail": f"{describe(c['e'])[:200]} lim={lim}{' (module-wide limit)' if c.get('g') else ''}"}
         if c["op"] == "enc" or not ok or lim < 3:
             return None
         want = "exprs=" + expected_text(c["e"]) + "|err=-"
@@ -493,7 +611,8 @@ def oracle(c, out):
                 key = "empty-delivery-assert"
             else:
                 key = "roundtrip"
-            return {"key": key, "detail": f"dialect={c['d']} lim={lim} sizes={c['sizes'][:20]}: decoded {got[:300]} expected {want[:300]}"}
+            return {"key": key, "detail": f"dialect={c['d']} lim={lim}{' (module-wide limit)' if c.get('g') else ''} sizes={c['sizes'][:20]} "
+                    f"value={describe(c['e'])[:200]}: decoded {got[:300]} expected {want[:300]}"}
         return None
     # whatever the stream: nothing outside the limits is ever delivered (an over-long prefix / oversized length is refused)
     bad = _delivered_out_of_limit(out, lim)
@@ -555,7 +674,33 @@ def _bytes(rng, tier, big=True):
     return ["b", bytes(rng.choice(alpha) if rng.random() < 0.7 else rng.randrange(256) for _ in range(n)).hex()]
 
 
+def _other(rng):
+    """a value of a type Banana does not send"""
+    return ["o"] if rng.random() < 0.25 else ["o", rng.choice(sorted(OTHERS))]
+
+
+def _sub(rng, e):
+    """the same value as an instance of a subclass of its type"""
+    k = e[0]
+    if k == "i":
+        how = rng.choice(["sub", "sub", "enum", "flag", "bool"])
+        if int(e[1]) in (0, 1) and rng.random() < 0.6:
+            how = "bool"
+    elif k == "T":
+        how = rng.choice(["sub", "nt"])
+    else:
+        how = "sub"
+    return ["S", how, e]
+
+
 def _expr(rng, tier, lim, depth, big=True):
+    e = _expr0(rng, tier, lim, depth, big)
+    if e[0] != "o" and rng.random() < 0.07:
+        return _sub(rng, e)
+    return e
+
+
+def _expr0(rng, tier, lim, depth, big=True):
     r = rng.random()
     if depth > 0 and r < 0.42:
         n = rng.choice([0, 0, 1, 1, 2, 2, 3, 4, 6])
@@ -568,7 +713,18 @@ def _expr(rng, tier, lim, depth, big=True):
         return _f(rng.choice(FLOATS) if rng.random() < 0.7 else rng.getrandbits(64))
     if r < 0.97:
         return _bytes(rng, tier, big)
-    return ["o"]
+    return _other(rng)
+
+
+def _deep(rng, tier, lim, levels=None):
+    """a structure nested `levels` deep (5..12 lists / tuples inside each other, siblings before and after at every level)"""
+    levels = levels or rng.choice([5, 6, 6, 6, 6, 7, 7, 8, 9, 12])
+    e = _valid(rng, tier, lim, 0) if rng.random() < 0.7 else ["L", []]
+    for _ in range(levels - (1 if e[0] in "LT" else 0)):
+        pre = [_valid(rng, tier, lim, rng.choice([0, 0, 1])) for _ in range(rng.choice([0, 0, 1, 2]))]
+        post = [_valid(rng, tier, lim, rng.choice([0, 0, 1])) for _ in range(rng.choice([0, 0, 0, 1, 2]))]
+        e = [rng.choice("LLT"), pre + [e] + post]
+    return e
 
 
 def _sizes(rng, total, empties):
@@ -595,6 +751,9 @@ def _sizes(rng, total, empties):
 
 def _lim(rng):
     return rng.choice([64, 64, 64, 64, 64, 64, 10, 5, 3, 3, 2, 1])
+
+
+G_SHARE = 0.3     # share of the cases whose prefix limit comes from the module-wide banana.setPrefixLimit
 
 
 def _real_len(c):
@@ -630,9 +789,18 @@ def _recipe(rng, tier):
             stream += _encode(d, lim, rng.choice([1, -5, b"x", 2.5, []]))
     kind = rng.choice(["longprefix", "longprefix-notype", "biglist", "bigstring"])
     if kind.startswith("longprefix"):
+        with_type = kind == "longprefix"
         k = rng.choice([lim + 1, lim + 1, lim + 2, lim + 30])
         bad = bytes(rng.randrange(128) for _ in range(k))
-        if kind == "longprefix":
+        r = rng.random()
+        if r < 0.3:                # a small number padded with high-order zero digits beyond the limit
+            m = rng.choice([0, 1, 1, 2, min(3, lim)])
+            bad = bad[:m] + b"\0" * (k - m)
+            kind += "-zeropad"
+        elif r < 0.4:              # zero digits in front (low-order), the number itself is huge
+            m = rng.randint(1, k - 1)
+            bad = b"\0" * m + bad[m:-1] + bytes([rng.randint(1, 127)])
+        if with_type:
             bad += bytes([rng.choice([0x80, 0x81, 0x82, 0x83, 0x84, 0x85, 0x86, 0x87, 0x88, 0xFF])]) + b"abc"
     else:
         n = rng.choice([SIZE_LIMIT + 1, SIZE_LIMIT + 2, 2**21, 2**21 - 1, 128**3, rng.randrange(SIZE_LIMIT + 1, 128**3)])
@@ -641,8 +809,11 @@ def _recipe(rng, tier):
         bad = dg + (b"\x80" if kind == "biglist" else b"\x82") + b"xyz"
     stream += bad
     chunks = cut(stream, _sizes(rng, len(stream), rng.random() < 0.15))
-    return {"op": "dec", "d": d, "lim": lim, "chunks": [x.hex() for x in chunks], "why": kind,
-            "expect": {"exprs": [expected_text(e) for e in pre], "err": "BananaError"}}
+    c = {"op": "dec", "d": d, "lim": lim, "chunks": [x.hex() for x in chunks], "why": kind,
+         "expect": {"exprs": [expected_text(e) for e in pre], "err": "BananaError"}}
+    if rng.random() < G_SHARE:
+        c["g"] = 1
+    return c
 
 
 def _mutated(rng, tier):
@@ -669,16 +840,42 @@ def _mutated(rng, tier):
             del s[pos:]
     s = bytes(s)
     chunks = cut(s, _sizes(rng, len(s), rng.random() < 0.1))
-    return {"op": "dec", "d": d, "lim": lim, "chunks": [x.hex() for x in chunks]}
+    c = {"op": "dec", "d": d, "lim": lim, "chunks": [x.hex() for x in chunks]}
+    if rng.random() < G_SHARE:
+        c["g"] = 1
+    return c
 
 
 def _rt(rng, tier, e=None, d=None, lim=None, empties=None):
     d = d or rng.choice(["pb", "none"])
     lim = lim or _lim(rng)
-    e = e or _expr(rng, tier, lim, rng.choice([0, 1, 2, 3, 4, 6]))
+    e = e or (_deep(rng, tier, lim) if rng.random() < 0.07 else _expr(rng, tier, lim, rng.choice([0, 1, 2, 3, 4, 6])))
     c = {"op": "rt", "d": d, "lim": lim, "e": e, "sizes": []}
+    if rng.random() < G_SHARE:
+        c["g"] = 1
     n = _real_len(c)
     c["sizes"] = _sizes(rng, n, (rng.random() < 0.12) if empties is None else empties)
+    return c
+
+
+def _enc(rng, tier):
+    """sendEncoded of one value on a fresh connection: accepted (bytes compared with the model) or refused"""
+    lim = _lim(rng)
+    r = rng.random()
+    if r < 0.15:
+        e = _other(rng)
+    elif r < 0.3:
+        e = _nested_bad(rng, tier, lim)
+    elif r < 0.36:
+        e = _deep(rng, tier, lim)
+    elif r < 0.363 and tier == "thorough":     # a list / tuple of exactly (one less than) SIZE_LIMIT elements — ~1 s each
+        e = [rng.choice(["R", "R", "TR"]), SIZE_LIMIT - rng.choice([0, 0, 1]), rng.choice([_i(0), _i(-1), ["L", []], _f(0)])]
+        e = ["R"] + e[1:] if e[0] == "R" else ["S", "sub", ["R"] + e[1:]]
+    else:
+        e = _expr(rng, tier, lim, 3)
+    c = {"op": "enc", "d": rng.choice(["pb", "none"]), "lim": lim, "e": e}
+    if rng.random() < G_SHARE:
+        c["g"] = 1
     return c
 
 
@@ -699,7 +896,9 @@ def _bad_leaf(rng, lim):
         return ["Z", SIZE_LIMIT + rng.choice([1, 1, 2, 200]), "%02x" % rng.choice([0x41, 0x80])]
     if r < 0.69:
         return ["R", SIZE_LIMIT + rng.choice([1, 1, 5]), _i(rng.choice([0, -1]))]
-    return ["o"]
+    if r < 0.74:                   # out of range AND an instance of a subclass
+        return ["S", "sub", _i(rng.choice([1, -1]) * rng.choice([B, B + 1]))]
+    return _other(rng)
 
 
 def _nested_bad(rng, tier, lim):
@@ -720,6 +919,8 @@ def _send_value(rng, tier, lim):
         return _bad_leaf(rng, lim)
     if r < 0.48:
         return _valid(rng, tier, lim, 1, big=True)
+    if r < 0.53:
+        return _deep(rng, tier, lim)
     return _valid(rng, tier, lim, rng.choice([0, 1, 1, 2, 2, 3, 4]))
 
 
@@ -733,15 +934,26 @@ def _sess(rng, tier):
         steps.append(["s", "A" if rng.random() < pa else "B", _send_value(rng, tier, lim)])
         for _ in range(rng.choice([0, 0, 0, 1, 1, 2, 3])):
             steps.append(["d", rng.choice("AAB") if pa < 1 else "A", rng.choice([0, 1, 1, 2, 3, 5, 8, 13, 50, 10**6])])
-    return {"op": "sess", "d": d, "lim": lim, "echo": 1 if rng.random() < 0.3 else 0, "steps": steps}
+    c = {"op": "sess", "d": d, "lim": lim, "echo": 1 if rng.random() < 0.3 else 0, "steps": steps}
+    if rng.random() < G_SHARE:
+        c["g"] = 1
+    return c
 
 
 def _raw(rng, tier):
     """bytes for banana.decode: a valid stream cut short, one with an oversized prefix inside open lists, two expressions, junk"""
     good = _encode("none", 64, to_py(_valid(rng, tier, 64, rng.choice([1, 2, 3]))))
     r = rng.random()
-    if r < 0.45 and len(good) > 1:
+    if r < 0.3 and len(good) > 1:
         return good[:rng.randrange(1, len(good))]
+    if r < 0.45:                   # one or two complete expressions, THEN something left open: a truncated expression, open
+        more = _encode("none", 64, to_py(_valid(rng, tier, 64, rng.choice([1, 2, 3]))))       # lists, a refused item in a list
+        tail = rng.choice([more[:rng.randrange(1, len(more))] if len(more) > 1 else b"\x01",
+                           _digits(rng.randint(1, 4)) + b"\x80",
+                           _digits(rng.randint(2, 4)) + b"\x80" + _encode("none", 64, 7) + b"\x01\x80",
+                           _digits(rng.randint(1, 4)) + b"\x80" + b"\x01" * 65 + b"\x81",
+                           b"\x02\x80" + _digits(SIZE_LIMIT + 1) + b"\x82"])
+        return good + (_encode("none", 64, 5) if rng.random() < 0.3 else b"") + tail
     if r < 0.6:
         return _digits(rng.randint(1, 4)) + b"\x80" + _encode("none", 64, 7) * rng.randint(0, 1) + b"\x01" * 65 + b"\x81"
     if r < 0.7:
@@ -802,6 +1014,70 @@ def _history_corpus():
     return out
 
 
+def _audit_corpus():
+    """boundary / unusual values found missing by the white-box mutation audit (harness/mutants/C44/m11…m24)"""
+    L = lambda *xs: ["L", list(xs)]
+    T = lambda *xs: ["T", list(xs)]
+    b = lambda x: ["b", x.hex()]
+    S = lambda how, e: ["S", how, e]
+    B = 2**448
+    nest = lambda n, leaf: leaf if n == 0 else L(nest(n - 1, leaf))
+    out = [
+        # a list of exactly SIZE_LIMIT elements is within the limits (encoding only: decoding 655360 items is quadratic)
+        {"op": "enc", "d": "none", "lim": 64, "e": ["R", SIZE_LIMIT, _i(0)]},
+        # instances of subclasses of the supported types are lists / tuples / ints / floats / byte strings
+        {"op": "rt", "d": "pb", "lim": 64, "sizes": [3, 1],
+         "e": L(S("nt", T(_i(1), b(b"x"))), S("sub", L(_i(2))), S("bool", _i(1)), S("bool", _i(0)), S("enum", _i(2**31)),
+                S("sub", _f(0x8000000000000000)), S("sub", b(b"list")), S("sub", T()), S("flag", _i(5)), S("sub", _i(-B + 1)))},
+        {"op": "rt", "d": "none", "lim": 64, "sizes": [], "e": S("sub", L(S("sub", b(b"list")), S("sub", ["Z", 130, "80"])))},
+        {"op": "rt", "d": "none", "lim": 64, "sizes": [1], "e": S("bool", _i(1))},
+        {"op": "enc", "d": "none", "lim": 64, "e": S("sub", _i(B))},
+        {"op": "enc", "d": "none", "lim": 3, "e": L(_i(1), S("enum", _i(2**21)))},
+        # structures nested deeper than the generator's usual 4 levels
+        {"op": "rt", "d": "none", "lim": 64, "sizes": [2, 2, 2], "e": nest(6, _i(1))},
+        {"op": "rt", "d": "pb", "lim": 64, "sizes": [], "e": nest(6, L())},
+        {"op": "rt", "d": "none", "lim": 64, "sizes": [5], "e": L(_i(1), T(_i(2), L(_i(3), T(_i(4), L(_i(5), T(_i(6), L(b(b"deep")), _i(7))))), _i(8)))},
+        {"op": "rt", "d": "none", "lim": 3, "sizes": [], "e": nest(12, _f(0x3FF8000000000000))},
+        # the module-wide prefix limit (banana.setPrefixLimit before the connection is made)
+        {"op": "rt", "d": "none", "lim": 3, "g": 1, "sizes": [1], "e": L(_i(2**21 - 1), _i(-(2**21) + 1))},
+        {"op": "enc", "d": "none", "lim": 3, "g": 1, "e": _i(2**21)},
+        {"op": "enc", "d": "pb", "lim": 5, "g": 1, "e": L(_i(1), _i(-(2**35)))},
+        {"op": "dec", "d": "none", "lim": 3, "g": 1, "chunks": ["01010101", "81"], "why": "longprefix",
+         "expect": {"exprs": [], "err": "BananaError"}},
+        {"op": "dec", "d": "none", "lim": 3, "g": 1, "chunks": ["01010181"], "why": "3-digit INT is accepted",
+         "expect": {"exprs": ["i%d" % (1 + 128 + 128 * 128)], "err": "-"}},
+        {"op": "dec", "d": "none", "lim": 100, "g": 1, "chunks": ["7f" * 100 + "85"], "why": "100-digit LONGINT is accepted",
+         "expect": {"exprs": ["i%d" % (2**700 - 1)], "err": "-"}},
+        {"op": "rt", "d": "none", "lim": 100, "g": 1, "sizes": [50], "e": _i(-(2**700) + 1)},
+        # prefixes longer than the limit whose extra digits are zeros
+        {"op": "dec", "d": "none", "lim": 64, "chunks": ["01" + "00" * 64 + "81"], "why": "longprefix-zeropad",
+         "expect": {"exprs": [], "err": "BananaError"}},
+        {"op": "dec", "d": "none", "lim": 64, "chunks": ["00" * 65 + "82"], "why": "longprefix-zeropad",
+         "expect": {"exprs": [], "err": "BananaError"}},
+        {"op": "dec", "d": "pb", "lim": 3, "chunks": ["0180", "05000000", "80"], "why": "longprefix-zeropad",
+         "expect": {"exprs": [], "err": "BananaError"}},
+        {"op": "dec", "d": "none", "lim": 64, "chunks": ["00" * 64 + "81"], "why": "64 zero digits: INT 0",
+         "expect": {"exprs": ["i0"], "err": "-"}},
+        # types Banana does not send: refused, at the top and inside a structure, nothing written
+        {"op": "enc", "d": "none", "lim": 64, "e": ["o", "str"]},
+        {"op": "enc", "d": "pb", "lim": 64, "e": ["o", "str-vocab"]},
+        {"op": "enc", "d": "none", "lim": 64, "e": L(_i(1), ["o", "str-nonascii"])},
+        {"op": "enc", "d": "none", "lim": 64, "e": ["o", "range"]},
+        {"op": "enc", "d": "none", "lim": 64, "e": T(["o", "bytearray"])},
+        {"op": "enc", "d": "none", "lim": 64, "e": ["o", "None"]},
+    ]
+    follow = L(_i(1), b(b"after"))
+    for name in sorted(OTHERS):
+        out.append({"op": "sess", "d": "pb" if len(name) % 2 else "none", "lim": 64, "echo": 0, "steps": [
+            ["s", "A", L(b(b"x"), ["o", name])], ["s", "A", ["o", name]], ["s", "A", follow]]})
+    out.append({"op": "mod", "steps": [["e", ["o", "str"]], ["e", L(["o", "deque"])], ["r", S("sub", L(S("bool", _i(1)), S("nt", T(_i(2)))))]]})
+    # banana.decode of a stream that holds a complete expression and THEN leaves lists open, then a round trip
+    out.append({"op": "mod", "steps": [["x", "01810280"], ["r", L(_i(7), _i(8))]]})
+    out.append({"op": "mod", "steps": [["x", "018102800581"], ["r", _i(3)], ["r", L()]]})
+    out.append({"op": "mod", "steps": [["x", "0181" + "0280" + "01" * 65 + "81"], ["r", L(b(b"a"))]]})
+    return out
+
+
 def corpus():
     L = lambda *xs: ["L", list(xs)]
     hello = ["b", b"hello".hex()]
@@ -838,7 +1114,7 @@ def corpus():
         out.append({"op": "rt", "d": "none", "lim": 64, "e": _i(n), "sizes": [1]})
     for bits in FLOATS[:8]:
         out.append({"op": "rt", "d": "pb", "lim": 64, "e": L(_f(bits)), "sizes": [4, 0, 3] if bits == 0 else [4, 3]})
-    return out + _history_corpus()
+    return out + _audit_corpus() + _history_corpus()
 
 
 def generate(rng, tier):
@@ -852,8 +1128,7 @@ def generate(rng, tier):
         elif r < 0.66:
             yield _rt(rng, tier)
         elif r < 0.72:
-            lim = _lim(rng)
-            yield {"op": "enc", "d": rng.choice(["pb", "none"]), "lim": lim, "e": _expr(rng, tier, lim, 3)}
+            yield _enc(rng, tier)
         elif r < 0.85:
             yield _recipe(rng, tier)
         else:
@@ -890,7 +1165,14 @@ def search(rng, tier, disagreeing):
 
 
 def _shrink_expr(e):
-    if e[0] in "LT":
+    if e[0] == "S":
+        yield e[2]                                  # the plain value
+        for y in _shrink_expr(e[2]):
+            if y[0] == e[2][0] and not (e[1] == "bool" and int(y[1]) not in (0, 1)):
+                yield ["S", e[1], y]
+    elif e[0] == "o" and len(e) > 1:
+        yield ["o"]
+    elif e[0] in "LT":
         for x in e[1]:
             yield x
         for i in range(len(e[1])):
@@ -921,6 +1203,11 @@ def shrink(c):
         for i in range(len(s)):
             yield dict(c, sizes=s[:i] + s[i + 1:])
         e = c["e"]
+        if c.get("g"):
+            yield {k: v for k, v in c.items() if k != "g"}
+        if e[0] == "S":
+            for y in _shrink_expr(e):
+                yield dict(c, e=y)
         if e[0] in "LT":
             for x in e[1]:
                 yield dict(c, e=x)
@@ -930,6 +1217,8 @@ def shrink(c):
                 if x[0] in "LT":
                     for y in x[1]:
                         yield dict(c, e=[e[0], e[1][:i] + [y] + e[1][i + 1:]])
+                elif x[0] == "S":
+                    yield dict(c, e=[e[0], e[1][:i] + [x[2]] + e[1][i + 1:]])
         if e[0] == "b" and len(e[1]) > 2:
             yield dict(c, e=["b", e[1][: len(e[1]) // 4 * 2]])
         if e[0] == "i" and abs(int(e[1])) > 1 and -(2**31) <= int(e[1]) < 2**31:
@@ -954,6 +1243,8 @@ def _shape(c):
 def _send_kind(e, lim):
     if in_limits(e, lim):
         return "v"
+    while e[0] == "S":
+        e = e[2]
     return "n" if e[0] in "LT" and len(e[1]) <= SIZE_LIMIT else "t"     # refused part-way (nested) / at the top
 
 
@@ -962,7 +1253,7 @@ def tag(c, out):
         pat = "".join(st[0] if st[0] == "x" else st[0] + _send_kind(st[1], 64) for st in c["steps"])[:12]
         res = "".join("v" if t.startswith(("v=", "ok=")) else t[1:3] for t in out.split(";"))[:16]
         return f"mod:{pat}:{res}"
-    limc = "64" if c["lim"] == 64 else "<3" if c["lim"] < 3 else "s"
+    limc = ("g" if c.get("g") else "") + ("64" if c["lim"] == 64 else "<3" if c["lim"] < 3 else "s")
     if c["op"] == "sess":
         pat = "".join((st[1].lower() if st[1] == "B" else "") + _send_kind(st[2], c["lim"]) if st[0] == "s" else
                       "." if st[2] else "0" for st in c["steps"])[:10]
